@@ -185,20 +185,24 @@ def build_race(ctx, pkg, name):
 
 
 RACE_HDR = re.compile(r"WARNING: DATA RACE")
-RUN_FRAME = re.compile(r"\(\*(\w+)\)\.Run\b")
 
 
-def _series_len(opline):
-    """T of a W ops line `W id Model backend nspec spec… nRows nSets params… nBlocks nInputs T …` (None if unreadable)."""
+def _w_meta(opline):
+    """(T, init) of a W ops line `W id Model backend nspec spec… nRows nSets params… nBlocks nInputs T inputs… init N nS …`
+    (None where unreadable; ops lines kept for replays may be truncated)."""
+    T = init = None
     try:
         t = opline.split()
         i = 4
         i += 1 + int(t[i])
         rows, sets = int(t[i]), int(t[i + 1])
         i += 2 + rows * sets
-        return int(t[i + 2])
+        nb, ni, T = int(t[i]), int(t[i + 1]), int(t[i + 2])
+        i += 3 + nb * ni * T
+        init = int(t[i])
     except (ValueError, IndexError):
-        return None
+        pass
+    return T, init
 
 
 def _race_reports(logprefix):
@@ -211,6 +215,53 @@ def _race_reports(logprefix):
         if RACE_HDR.search(txt):
             reps.append((p, txt))
     return reps
+
+
+class _RaceWorker:
+    """One `owharness-race child W` process with its own race log; the case that kills it is known exactly."""
+
+    def __init__(self, exe, fam, procs, logprefix):
+        self.logprefix = logprefix
+        env = dict(GOENV, GOMAXPROCS=str(procs), GOMEMLIMIT="2GiB", GOTRACEBACK="single",
+                   GORACE="halt_on_error=1 log_path=" + logprefix)
+        self.p = subprocess.Popen([exe, "child", fam], stdin=subprocess.PIPE, stdout=subprocess.PIPE, stderr=subprocess.DEVNULL, env=env)
+
+    def call(self, body, timeout=120):
+        import select
+        try:
+            self.p.stdin.write((body + "\n").encode())
+            self.p.stdin.flush()
+        except (BrokenPipeError, OSError):
+            return None
+        buf = b""
+        end = time.time() + timeout
+        fd = self.p.stdout.fileno()
+        while not buf.endswith(b"\n"):
+            left = end - time.time()
+            if left <= 0:
+                self.kill()
+                return None
+            r, _, _ = select.select([fd], [], [], left)
+            if not r:
+                continue
+            chunk = os.read(fd, 1 << 20)
+            if not chunk:
+                return None        # worker died
+            buf += chunk
+        return buf.decode(errors="replace").rstrip("\n")
+
+    def kill(self):
+        try:
+            self.p.kill()
+        except OSError:
+            pass
+
+    def close(self):
+        try:
+            self.p.stdin.close()
+            self.p.wait(timeout=10)
+        except Exception:
+            self.kill()
 
 
 def race_step(check, ctx):
@@ -226,55 +277,72 @@ def race_step(check, ctx):
     res["build"] = msg if exe else "FAILED"
     if not exe:
         raise Internal("harness does not build with -race:\n" + msg)
+    # the cases: drawn by the ordinary harness (family W generator)
+    gd = os.path.join(ctx["workdir"], "race-cases")
+    os.makedirs(gd, exist_ok=True)
+    r = core.run([ctx["harness"], "gen", "W", "-seed", str(ctx["seed"] + 1000), "-tier", "quick", "-dir", gd,
+                  "models=" + ",".join(models), "n=40"], cwd=gd, env=dict(GOENV, GOMEMLIMIT="6GiB", OW_HARNESS=ctx["harness"]))
+    if r.returncode != 0 or not os.path.exists(os.path.join(gd, "W.ops")):
+        _oracle(ctx, "harness-crash:race-cases", "the W generator died while driving the real code:\n" + (r.stderr or "")[-3000:])
+        res["cases"] = "generator died"
+        owsim_race(ctx, res)
+        return []
+    cases = []
+    for line in open(os.path.join(gd, "W.ops")):
+        t = line.rstrip("\n").split(" ", 2)
+        if len(t) == 3:
+            cases.append((t[1], t[2]))
+    res["cases"] = len(cases)
+    init_per_cell = set()
+    try:
+        init_per_cell = set(json.load(open(os.path.join(ctx["workdir"], "runfacts.json"))).get("init_per_cell") or [])
+    except (OSError, ValueError):
+        pass
     for procs in RACE_PROCS:
         d = os.path.join(ctx["workdir"], "race-p%d" % procs)
         os.makedirs(d, exist_ok=True)
-        logprefix = os.path.join(d, "race")
-        env = dict(GOENV, GOMEMLIMIT="6GiB", OW_HARNESS=exe, GORACE="halt_on_error=1 log_path=" + logprefix)
-        cmd = [exe, "gen", "W", "-seed", str(ctx["seed"] + procs), "-tier", "quick", "-dir", d,
-               "models=" + ",".join(models), "n=8", "gomaxprocs=%d" % procs]
         t0 = time.time()
-        r = core.run(cmd, cwd=d, env=env)
-        if r.returncode != 0 and not _race_reports(logprefix):
-            raise Internal("race run (GOMAXPROCS=%d) failed:\n%s" % (procs, (r.stderr or "")[-3000:]))
-        stats = {}
-        sp = os.path.join(d, "W.stats.json")
-        if os.path.exists(sp):
-            stats = json.load(open(sp))
-        crashed = []
-        if os.path.exists(os.path.join(d, "W.impl")):
-            ids = set()
-            for line in open(os.path.join(d, "W.impl")):
-                t = line.split(None, 2)
-                if len(t) > 1 and t[1] == "panic":
-                    ids.add(t[0])
-            if ids:
-                for line in open(os.path.join(d, "W.ops")):
-                    t = line.split(None, 3)
-                    if len(t) > 2 and t[1] in ids:
-                        crashed.append((t[1], t[2], line.rstrip("\n")[:4000], t[3].split(None, 1)[0], _series_len(line)))
-        reps = _race_reports(logprefix)
-        for k, (path, txt) in enumerate(reps):
-            m = RUN_FRAME.search(txt)
-            model = m.group(1) if m else (crashed[k][1] if k < len(crashed) else "unknown")
-            cands = [c for c in crashed if c[1] == model] or crashed[k:k + 1]
-            cands.sort(key=lambda c: 0 if c[4] == 0 else 1)
-            case = cands[0] if cands else None
-            scope = "race:" + model
-            note = ""
-            if case and case[4] == 0 and case[3] == "c":
-                # empty series on C-backed (unchecked) arrays: a kernel that touches element 0 writes outside its (empty) row
-                scope += ":empty-series"
-                note = " [series length 0, C-backed arrays: out-of-bounds access of an empty row]"
-            _oracle(ctx, scope, "race detector report, family W, GOMAXPROCS=%d, model %s%s:\n%s" % (procs, model, note, txt[:5000]),
-                    op=case[2] if case else "", family="W-p%d" % procs)
-        for of in stats.get("oracle_failures") or []:
-            of["family"] = "W-race-p%d" % procs
-            ctx.setdefault("oracle_failures", []).append(of)
-        res["runs"].append({"gomaxprocs": procs, "cases": stats.get("cases"), "seconds": round(time.time() - t0, 1),
-                            "race_reports": len(reps), "worker_crashes": (stats.get("hist") or {}).get("worker_crash", 0),
-                            "crashed_cases": [c[1] for c in crashed][:10]})
-        log("C05 race run GOMAXPROCS=%d: %s cases, %d race reports, %.1fs" % (procs, stats.get("cases"), len(reps), time.time() - t0))
+        nworker = 0
+        w = None
+        reports = 0
+        deaths = 0
+        by_model = {}
+        for cid, body in cases:
+            if w is None:
+                nworker += 1
+                w = _RaceWorker(exe, "W", procs, os.path.join(d, "race-%d" % nworker))
+            out = w.call(body)
+            if out is not None:
+                continue
+            # the worker died on this case: a panic in a goroutine of the real code, or a halt of the race detector
+            w.kill()
+            deaths += 1
+            reps = _race_reports(w.logprefix)
+            w = None
+            tok = body.split(None, 2)
+            model, backend = tok[0], tok[1]
+            T, init = _w_meta("W %s %s" % (cid, body))
+            for _, txt in reps:
+                reports += 1
+                by_model[model] = by_model.get(model, 0) + 1
+                scope = "race:" + model
+                note = ""
+                if T == 0 and backend == "c":
+                    # empty series on C-backed (unchecked) arrays: a kernel that touches element 0 writes outside its (empty) row
+                    scope += ":empty-series"
+                    note = " [series length 0, C-backed arrays: out-of-bounds access of an empty row]"
+                elif init == 1 and model in init_per_cell:
+                    # the states array came from the wrapper's own InitialiseStates(n), which takes the row width from cell 0: a
+                    # cell with a wider state vector (larger ceil(x4) / lag) reaches into the next cell's row (DESIGN §7 D15)
+                    scope += ":InitialiseStates-row-width"
+                    note = " [states from InitialiseStates(n): row width of cell 0; a wider cell overlaps the next cell's row]"
+                _oracle(ctx, scope, "race detector report, family W case %s, GOMAXPROCS=%d, model %s%s:\n%s"
+                        % (cid, procs, model, note, txt[:5000]), op=("W %s %s" % (cid, body))[:20000], family="W-p%d" % procs)
+        if w is not None:
+            w.close()
+        res["runs"].append({"gomaxprocs": procs, "cases": len(cases), "seconds": round(time.time() - t0, 1), "race_reports": reports,
+                            "worker_deaths (goroutine panics + detector halts)": deaths, "reports_by_model": by_model})
+        log("C05 race run GOMAXPROCS=%d: %d cases, %d race reports, %d worker deaths, %.1fs" % (procs, len(cases), reports, deaths, time.time() - t0))
     owsim_race(ctx, res)
     return []
 
